@@ -96,6 +96,17 @@ CLAIMED['C20'] = dict(
     technique='function contracts + loop contracts (invariants, decreases) enforced by CBMC DFCC on extracted real bodies with a ghost emission monitor; bounded native exhaustive stand-ins for float-dependent clauses',
     design='4/C20')
 
+CLAIMED['C09'] = dict(
+    text='Contract proof for 8-bit pixels over the real bodies of rgb_to_luminance (integer path), gray->rgb, rgb->gray, rgb->cmyk, cmyk->rgb, '
+         'cmyk->gray, <C1,rgba_t> and <rgba_t,C2>: luminance within one unit of 0.30r+0.59g+0.11b, monotone, (v,v,v)->v exactly; black->black and '
+         'white->white between rgb and cmyk; rgb->cmyk->rgb within one level (256 partition cells over the black level, all rgb8 pixels); to-rgba '
+         'pairs channels BY COLOUR NAME for rgba/bgra/argb/abgr destinations and sets alpha to max; from-rgba is the alpha-premultiplied rgb. '
+         'Pixels are arrays in memory order with get_color indices measured on the real pixel types.',
+    note=TRUST + '16-bit/float pixel instantiations, same-colour-space conversion (static_for_each), color_convert_deref_fn and copy_and_convert_pixels are not covered; '
+         '8-bit channel_convert identity taken from C06.',
+    technique='function contracts enforced by CBMC DFCC / integer VCs on extracted real bodies, callee contracts for channel_invert / channel_multiply / luminance; partitioned composition lemma',
+    design='4/C09')
+
 NOT_APPLICABLE = {
     'C12': 'relates two whole template pipelines through a file/stream and external C libraries; no function contract within reach of a C verifier states what read_image returns after write_view (DESIGN 5)',
     'C13': 'equality of results of different compositions of reader classes/devices/policies over the same bytes is a relational property over I/O histories, not a pre/postcondition of an extractable function (DESIGN 5)',
